@@ -4,6 +4,7 @@ import numpy as np
 import pandas as pd
 
 from harness.core import Machinery
+from checks import binding
 
 
 def _series(y0, m0, vals):
@@ -22,7 +23,7 @@ def run(ctx):
     from hydrodiy.data import dutils
     rng = np.random.default_rng(ctx.seed + 8)
     # spec -> code: calendar cases enumerated by TLC
-    res = ctx.tlc("Monthly2Daily", "MC_Monthly2Daily_gen.cfg", workers=4, timeout=300)
+    res = ctx.tlc("Monthly2Daily", "MC_Monthly2Daily_gen.cfg", timeout=300)
     cases = res.printed()
     if len(cases) < 100:
         raise Machinery("Monthly2Daily generator produced %d cases" % len(cases))
@@ -74,10 +75,11 @@ def run(ctx):
     with open(path, "w") as f:
         for r in recs:
             f.write(json.dumps(r) + "\n")
-    res2 = ctx.tlc("Monthly2DailyTrace", "MC_Monthly2DailyTrace.cfg", workers=1, timeout=1800,
+    res2 = ctx.tlc("Monthly2DailyTrace", "MC_Monthly2DailyTrace.cfg", timeout=1800,
                    env={"TRACE_FILE": str(path)})
     if not res2.tuples("VALIDATED"):
         raise Machinery("Monthly2DailyTrace did not complete:\n" + res2.out[-2000:])
+    ctx.binding_demo("Monthly2DailyTrace", "MC_Monthly2DailyTrace.cfg", path, binding.monthly, timeout=1800)
     for line in res2.tuples("REJECT"):
         t = int(line.strip("<>").split(",")[1]) - 1
         r = recs[t]
